@@ -12,12 +12,12 @@ def one_run(program, plan=None):
     def prepare(env):
         if plan:
             for n, name in plan:
-                def action(s, name=name, env=env):
+                def action(s, name=name, env=env, n=n):
                     task = env.tasks.get(name)
                     if task is not None:
                         s.stats['injected'] += 1
-                        env.note_cancel(task, ('injected',))
-                        task.cancel('injected')
+                        env.note_cancel(task, ('injected', n))
+                        task.cancel('injected', n)
                     else:
                         s.stats['inject_no_victim'] += 1
                 sess.at_boundary(n, action)
@@ -28,7 +28,9 @@ def one_run(program, plan=None):
 STAT_KEYS = ('owner_checked', 'exceptions_observed', 'injected', 'due_checked', 'scheduled',
              'inject_no_victim', 'spawn_refused', 'scope_exits', 'normal_exits',
              'c05_blocks_checked', 'c05_failing_blocks', 'c05_foreign_signal_exits',
-             'c05_blocks_tainted', 'containment_events_checked')
+             'c05_blocks_tainted', 'containment_events_checked', 'c06_status_changes',
+             'c06_samples', 'c06_cancels_judged', 'c06_cancel_before_start',
+             'c06_cancel_running', 'c06_awaits')
 
 
 def explore(case, program, rng, relevant, nontrivial, quick_injections=6,
@@ -72,7 +74,7 @@ def explore(case, program, rng, relevant, nontrivial, quick_injections=6,
             first = False
             if case.get('plan') is None:
                 total = sess.n
-                names = sorted(name for name in env.task_names.values())
+                names = sorted(env.tasks)
                 if names and total:
                     if case.get('tier') == 'thorough':
                         for name in rng.sample(names, min(thorough_victims, len(names))):
